@@ -38,6 +38,10 @@ def streams(rnd, tier):
     out.append(("declalg", [l for _ in range(100 * k) for l in c20.gen_script(rnd, tier)], ()))
     out.append(("attrs", [l for _ in range(60 * k) for l in c15.gen_script(rnd, tier)], ()))
     out.append(("odd", ["prog %d" % rnd.randrange(10 ** 9) for _ in range(1200 * k)], ()))
+    # programs in which code the lookup itself calls (overridden uncached lookups, storage hooks, lazy `required`, descriptors) mutates
+    # the registry: "the same subsequent behaviour" includes what the caches serve afterwards
+    from . import c11
+    out.append(("reentry", [l for l in c11.scenarios(tier) if not l.startswith("inmut")], ()))
     return [x for x in out if x]
 
 
@@ -58,6 +62,9 @@ def check(tier):
                 {"c": "C", "py": "Python"}[m], layer, str(bad)[-300:]), observed="<no answer>", other=""))
             continue
         c_out, py_out = res
+        if layer == "reentry":
+            import re
+            c_out, py_out = [[re.sub(r" at 0x[0-9a-f]+", "", o) for o in outs] for outs in (c_out, py_out)]
         if layer == "life":
             fails += c10life.failures(lines, c_out, py_out, chk)      # independent oracle; the direct comparison follows
         total += len(lines)
